@@ -1117,6 +1117,117 @@ def temporal_values(ctx):
             ctx.divergence('lexInt does not read back a real integer literal', [v, real], model=out, impl=[v, tail])
 
 
+def sv_json(v):
+    if v is None: return {'k': 'none'}
+    if isinstance(v, bool): return {'k': 'bool', 'v': v}
+    if isinstance(v, int): return {'k': 'int', 'v': v}
+    if isinstance(v, str): return {'k': 'str', 'v': v}
+    if isinstance(v, bytes): return {'k': 'bytes', 'v': list(v)}
+    if isinstance(v, datetime): return {'k': 'datetime', 'v': [v.year, v.month, v.day, v.hour, v.minute, v.second, v.microsecond]}
+    if isinstance(v, date): return {'k': 'date', 'v': [v.year, v.month, v.day]}
+    if isinstance(v, time): return {'k': 'time', 'v': [v.hour, v.minute, v.second, v.microsecond]}
+    raise TypeError(v)
+
+
+def db_json(v):
+    """a value as sqlite3 returns it / receives it"""
+    if v is None: return {'db': 'null'}
+    if isinstance(v, bool): return {'db': 'int', 'v': int(v)}
+    if isinstance(v, int): return {'db': 'int', 'v': v}
+    if isinstance(v, str): return {'db': 'text', 'v': v}
+    if isinstance(v, (bytes, memoryview)): return {'db': 'blob', 'v': list(bytes(v))}
+    return {'db': '?', 'v': repr(v)}
+
+
+class FakeEntityMeta(type): pass
+FakeEntityMeta.__name__ = 'EntityMeta'     # Param.eval asserts type(type(value)).__name__ == 'EntityMeta'
+class FakeEntity(metaclass=FakeEntityMeta):
+    def __init__(self, pk): self.pk = tuple(pk)
+    def _get_raw_pkval_(self): return self.pk
+
+
+def param_eval_tie(ctx, strings):
+    """paramEvalRaw + sqliteBind vs the real Param.eval with the real SQLite converters (tuple items, entity key components);
+    sqliteConstText / sqliteRead / sqliteBind vs the real SQLiteValue, real SQLite reading the literal and real SQLite receiving the
+    converted parameter - and, real against real, the constant and the parameter must denote the same SQLite value"""
+    if not ctx.driver.ok: return
+    rng = ctx.rng; con = sqlite_con()
+    db = Database(); db.bind('sqlite', ':memory:')
+    prov = db.provider
+    convs = {str: prov.get_converter_by_py_type(str), int: prov.get_converter_by_py_type(int), bool: prov.get_converter_by_py_type(bool),
+             bytes: prov.get_converter_by_py_type(bytes), date: prov.get_converter_by_py_type(date), datetime: prov.get_converter_by_py_type(datetime),
+             time: prov.get_converter_by_py_type(time)}
+    pool = [s for s in strings if len(s) <= 6 and '\x00' not in s]
+    def rand_sv():
+        r = rng.randrange(9)
+        if r == 0: return None
+        if r == 1: return rng.choice([True, False])
+        if r == 2: return rng.choice([0, 1, -1, 2 ** 63 - 1, -2 ** 63, rng.randrange(-10 ** 12, 10 ** 12)])
+        if r in (3, 4): return rng.choice(pool + SPECIAL[:30])
+        if r == 5: return bytes(rng.randrange(256) for _ in range(rng.randrange(0, 5)))
+        if r == 6: return date(rng.choice([1, 987, 2020, 9999]), rng.randrange(1, 13), rng.randrange(1, 29))
+        if r == 7: return datetime(rng.choice([1, 2020, 9999]), rng.randrange(1, 13), rng.randrange(1, 29), rng.randrange(24), rng.randrange(60), rng.randrange(60), rng.choice([0, 1, rng.randrange(10 ** 6)]))
+        return time(rng.randrange(24), rng.randrange(60), rng.randrange(60), rng.choice([0, 1, rng.randrange(10 ** 6)]))
+    def conv_of(v): return None if v is None else convs[type(v)]
+    # --- Param.eval
+    reqs = []; reals = []; inputs = []
+    for _ in range(ctx.scale(150, 4000)):
+        nvars = rng.choice([1, 2, 3]); values = []; jvals = []
+        for _v in range(nvars):
+            def elem():
+                if rng.random() < 0.35:
+                    pk = [x for x in (rand_sv() for _ in range(rng.choice([1, 2, 3]))) ]
+                    return FakeEntity(pk), {'entity': [sv_json(x) for x in pk]}
+                x = rand_sv(); return x, {'scalar': sv_json(x)}
+            if rng.random() < 0.5:
+                es = [elem() for _ in range(rng.choice([1, 2, 4]))]
+                values.append(tuple(e[0] for e in es)); jvals.append({'seq': [e[1] for e in es]})
+            else:
+                e = elem(); values.append(e[0]); jvals.append({'one': e[1]})
+        var = rng.randrange(nvars); val = values[var]
+        i = rng.randrange(len(val)) if isinstance(val, tuple) else None
+        el = val[i] if i is not None else val
+        j = rng.randrange(len(el.pk)) if isinstance(el, FakeEntity) else None
+        target = el.pk[j] if j is not None else el
+        prm = Param('qmark', (var, i, j), conv_of(target))
+        try: real = db_json(prm.eval(values))
+        except Exception as e: real = 'raised %s' % type(e).__name__
+        reqs.append({'op': 'param_eval', 'values': jvals, 'key': [var, i, j]}); reals.append(real); inputs.append([var, i, j, repr(values)[:200]])
+        ctx.count('param-eval-tie:%s%s' % ('item' if i is not None else 'whole', '+pk' if j is not None else ''))
+    for inp, real, out in zip(inputs, reals, ctx.driver('C06', reqs)):
+        ctx.case(['param-eval-tie'] + inp, kind='param-eval-tie')
+        if out != real:
+            ctx.divergence('paramEvalRaw/sqliteBind differs from the real Param.eval with the real SQLite converter', inp, model=out, impl=real)
+    # --- constant vs parameter
+    vals = [None, True, False, 0, -1, 2 ** 63 - 1, -2 ** 63, '', "'", '%', '%s', "a'b%", 'é😀', b'', b'\x00\xff', date(1, 1, 1), date(9999, 12, 31),
+            datetime(2020, 1, 2, 3, 4, 5), datetime(2020, 1, 2, 3, 4, 5, 6), time(0, 0), time(3, 4, 5, 6)] + [rand_sv() for _ in range(ctx.scale(60, 1500))]
+    reqs = []; meta = []
+    for v in vals:
+        for style in STYLES:
+            lit = str(SQLiteValue(style, v))
+            c = conv_of(v)
+            bound = c.py2sql(c.val2dbval(v)) if c is not None else v
+            try:
+                r_lit = con.execute('SELECT %s AS x, typeof(%s)' % ((dbapi_expand(style, lit),) * 2)).fetchall()[0]
+                r_par = con.execute('SELECT ? AS x, typeof(?)', (bound, bound)).fetchall()[0]
+            except Exception as e:
+                r_lit = r_par = None; err = 'raised %s' % type(e).__name__
+            ctx.case(['const-vs-param', style, repr(v)[:40]], kind='const-vs-param:' + type(v).__name__)
+            if r_lit is None or r_lit != r_par:
+                ctx.violation('a value written as a constant and the same value bound as a parameter do not denote the same SQLite value',
+                              {'value': repr(v), 'style': style, 'literal': lit, 'bound_after_py2sql': repr(bound)}, observed=repr(r_lit), expected=repr(r_par),
+                              key='const-vs-param:%s' % type(v).__name__)
+            reqs.append({'op': 'sqlite_const', 'style': style, 'sv': sv_json(v)}); meta.append((v, style, lit, r_lit, r_par))
+    for (v, style, lit, r_lit, r_par), out in zip(meta, ctx.driver('C06', reqs)):
+        if out['text'] != lit:
+            ctx.divergence('sqliteConstText differs from the real SQLiteValue.__str__', [repr(v), style], model=out['text'], impl=lit)
+        if r_lit is not None and out['read'] != db_json(r_lit[0]):
+            ctx.divergence('sqliteRead differs from what real SQLite reads from the literal', [repr(v), style, lit], model=out['read'], impl=db_json(r_lit[0]))
+        if r_par is not None and out['bind'] != db_json(r_par[0]):
+            ctx.divergence('sqliteBind differs from what real SQLite receives for the converted parameter', [repr(v), style], model=out['bind'], impl=db_json(r_par[0]))
+    con.close(); db.disconnect()
+
+
 def canon_occ(occ):
     m = {}
     return [m.setdefault(k, len(m)) for k in occ]
@@ -1132,7 +1243,7 @@ def run(ctx):
     for name, f in [('literals', lambda: literals(ctx, strings)), ('mysql_witness', lambda: mysql_witness(ctx)), ('other_values', lambda: other_values(ctx)),
                     ('identifiers', lambda: identifiers(ctx, strings)), ('like_model_vs_sqlite', lambda: like_model_vs_sqlite(ctx)),
                     ('like_queries', lambda: like_queries(ctx, strings)), ('statements', lambda: statements(ctx, strings)),
-                    ('builder_text_tie', lambda: builder_text_tie(ctx)), ('structure', lambda: structure(ctx, strings)), ('typed_constants', lambda: typed_constants(ctx)), ('param_eval_queries', lambda: param_eval_queries(ctx, strings)), ('temporal_values', lambda: temporal_values(ctx))]:
+                    ('builder_text_tie', lambda: builder_text_tie(ctx)), ('structure', lambda: structure(ctx, strings)), ('typed_constants', lambda: typed_constants(ctx)), ('param_eval_queries', lambda: param_eval_queries(ctx, strings)), ('temporal_values', lambda: temporal_values(ctx)), ('param_eval_tie', lambda: param_eval_tie(ctx, strings))]:
         t0 = _t.time()
         try: f()
         except Exception as ex:
